@@ -38,6 +38,8 @@ type gen struct {
 	p [2]int
 }
 
+var execNo int64
+
 func (g *gen) body() {
 	gocql.VerifResetGlobals()
 	vatomic.Yield = true
@@ -46,7 +48,11 @@ func (g *gen) body() {
 	// the instant: the (frozen) virtual now; UUIDFromTime gets exactly this instant plus 57 ns
 	// (inside the same 100 ns tick), TimeUUID reads the virtual clock itself
 	now := vs.Now()
-	t := now.Add(57 * time.Nanosecond)
+	// Every execution of a worker process uses a LATER instant for UUIDFromTime than all executions before it, as wall-clock
+	// time would: process-wide generator state the harness does not know about (and therefore cannot reset) then looks at
+	// the first call of every execution the way it does in a fresh process - "the time moved forward since the last UUID".
+	execNo++
+	t := now.Add(time.Duration(execNo)*time.Second + 57*time.Nanosecond)
 	nThreads := g.nThreads
 	var out [maxThreads][nCalls]gocql.UUID
 	done := make(chan int, maxThreads)
@@ -69,13 +75,19 @@ func (g *gen) body() {
 	vs.WaitQuiescent()
 
 	// ---- oracle
-	wantTS := now.Unix()*1e7 + int64(now.Nanosecond()/100) + gregorianToUnix100ns
-	wantTime := time.Unix(now.Unix(), int64(now.Nanosecond()/100*100)).UTC()
+	instantOf := func(kind byte) (int64, time.Time) {
+		at := now
+		if kind == 'F' {
+			at = t
+		}
+		return at.Unix()*1e7 + int64(at.Nanosecond()/100) + gregorianToUnix100ns, time.Unix(at.Unix(), int64(at.Nanosecond()/100*100)).UTC()
+	}
 	seen := map[gocql.UUID]string{}
 	sig := ""
 	for i := 0; i < nThreads; i++ {
 		for k := 0; k < nCalls; k++ {
 			u := out[i][k]
+			wantTS, wantTime := instantOf(g.plan[i][k])
 			who := fmt.Sprintf("gen%d call %d (%c)", i, k, g.plan[i][k])
 			if prev, dup := seen[u]; dup {
 				vs.Failf("c19:concurrent-time-uuids-not-distinct", "%s and %s both got %v (clock sequence started at %#x, same instant %v)", prev, who, u, start, t)
@@ -97,10 +109,7 @@ func (g *gen) body() {
 			sig += fmt.Sprintf("%d", (uint32(u[8]&0x3F)<<8|uint32(u[9])-start)&0x3FFF)
 		}
 	}
-	if got := gocql.VerifC19ClockSeq() - start; got != uint32(nThreads*nCalls) {
-		// not demanded by the property as such, but a lost update here is exactly what makes two UUIDs collide
-		vs.Failf("c19:concurrent:clock-sequence-lost-update", "clock sequence advanced by %d after %d generated UUIDs (start %#x)", got, nThreads*nCalls, start)
-	}
+	// (how far the clock sequence advanced is not judged: the property demands distinct UUIDs, not one bump per call)
 	// outcome signature: which (thread, call) got which clock value, relative to the start
 	vs.Observe("start=%#x clocks=%s", start, sig)
 }
